@@ -37,7 +37,7 @@ func randPayload(r *Rng, o genOpts) string {
 	}
 	if r.Chance(1, 40) {
 		// size boundaries: buffer growth, the pool's oversize rule
-		sizes := []int{63, 64, 65, 127, 128, 129, 4096}
+		sizes := []int{63, 64, 65, 127, 128, 129}
 		b.WriteString(strings.Repeat("k", sizes[r.Intn(len(sizes))]))
 	}
 	return b.String()
@@ -362,7 +362,7 @@ var allVerbs = func() []string {
 	for c := 'A'; c <= 'Z'; c++ {
 		v = append(v, string(c))
 	}
-	return append(v, "!", "_", "é", startM, "\U0001f6d1", "1")
+	return append(v, "!", "_", "é", startM, "\U0001f6d1", "~")
 }()
 
 var commonVerbs = []string{"v", "v", "v", "s", "d", "q", "x", "X", "t", "f", "g", "e", "c", "U", "o", "b", "p", "T", "O", "E", "G", "F"}
@@ -472,7 +472,7 @@ func randCall(r *Rng, o genOpts) *Call {
 		for i, n := 0, 1+r.Intn(8); i < n; i++ {
 			b.WriteString(rawFrags[r.Intn(len(rawFrags))])
 		}
-		c.Raw = QS(b.String())
+		c.Raw = QS(capDigitRuns(b.String()))
 		for i, n := 0, r.Intn(4); i < n; i++ {
 			if r.Chance(1, 3) {
 				c.Args = append(c.Args, dN("int", []int64{0, 1, 5, -3, 1000001}[r.Intn(5)]))
@@ -495,4 +495,29 @@ func randCall(r *Rng, o genOpts) *Call {
 		}
 	}
 	return c
+}
+
+// capDigitRuns shortens digit runs of 5 to 7 digits to 4 digits: a width
+// between 10^4 and 10^7 is accepted by the parser and makes every element of
+// a nested operand megabytes long (slow, and not a different path). Runs of 8
+// or more digits are kept: they overflow the parser's limit.
+func capDigitRuns(f string) string {
+	var b strings.Builder
+	for i := 0; i < len(f); {
+		j := i
+		for j < len(f) && f[j] >= '0' && f[j] <= '9' {
+			j++
+		}
+		if n := j - i; n >= 5 && n <= 7 {
+			b.WriteString(f[i : i+4])
+		} else if n > 0 {
+			b.WriteString(f[i:j])
+		}
+		if j == i {
+			b.WriteByte(f[i])
+			j++
+		}
+		i = j
+	}
+	return b.String()
 }
